@@ -116,10 +116,12 @@ def cdc_bench(name, cmd_depth=4, wdata_depth=4, rdata_depth=4, fairness=3, aw=4,
     # ... and the crossing refuses a word only when it really holds (about) rdata_depth words: occupancy + words the user popped
     # in the last few steps (the write side sees pops a few edges late) is at least the nominal depth
     occ = Signal(8)
-    pops = [Signal() for _ in range(6)]
+    NWIN = 4 * (fairness + 1) + 2     # the write side learns about a pop after <= 3 of its own clock edges (Gray register + 2-FF
+                                      # synchroniser), each at most fairness+1 steps apart
+    pops = [Signal() for _ in range(NWIN)]
     push_r = pc.rdata.valid & pc.rdata.ready & ts
     pop_r = pu.rdata.valid & pu.rdata.ready & tu
-    top.sync.mon += [occ.eq(occ + push_r - pop_r), pops[0].eq(pop_r)] + [pops[i].eq(pops[i - 1]) for i in range(1, 6)]
+    top.sync.mon += [occ.eq(occ + push_r - pop_r), pops[0].eq(pop_r)] + [pops[i].eq(pops[i - 1]) for i in range(1, NWIN)]
     recent = sum(pops[1:], pops[0]) + pop_r
     bad("crossing_refuses_read_data_although_fewer_than_rdata_depth_words_are_inside", ~pc.rdata.ready & (occ + recent < rdata_depth))
     if bounded_reads:
